@@ -113,6 +113,11 @@ class Folder:
                     return getattr(recv, name)(*args)
                 except Exception as ex:
                     raise NotConstant(str(ex))
+            # constexpr evaluation of a package-local pure helper (bounded AST interpreter)
+            target = self.idx.resolve_expr(m, fn) if isinstance(fn, (ast.Name, ast.Attribute)) else None
+            if isinstance(target, FuncInfo) and not e.keywords:
+                args = [f(a) for a in e.args]
+                return ConstEval(self, target.module).call(target, args, {})
             raise NotConstant(ast.unparse(e))
         if isinstance(e, ast.Subscript):
             v = f(e.value)
@@ -172,6 +177,231 @@ class Folder:
             return self.name(name, m, None)
         except NotConstant as e:
             raise AnalysisError("cannot fold %s.%s: %s" % (modname, name, e))
+
+
+class _Return(Exception):
+    def __init__(self, v):
+        self.v = v
+
+
+class ConstEval:
+    """Bounded interpreter for *pure* helper functions of the package, used
+    only to fold module-level constants that the code computes with a helper
+    at import time (e.g. util.base32's character classes).  Supports the
+    statement kinds such helpers use; anything else -> NotConstant."""
+
+    MAX_STEPS = 200000
+
+    def __init__(self, folder: "Folder", module: Module):
+        self.folder = folder
+        self.module = module
+        self.steps = 0
+
+    def call(self, fn: FuncInfo, args, kwargs):
+        a = fn.node.args
+        names = [x.arg for x in a.args]
+        if a.vararg or a.kwarg or a.kwonlyargs and False:
+            raise NotConstant("varargs in %s" % fn.qual)
+        env: Dict[str, Any] = {}
+        defaults = list(a.defaults)
+        for i, nm in enumerate(names):
+            if i < len(args):
+                env[nm] = args[i]
+            elif nm in kwargs:
+                env[nm] = kwargs[nm]
+            else:
+                di = i - (len(names) - len(defaults))
+                if di < 0:
+                    raise NotConstant("missing argument %s" % nm)
+                env[nm] = self.expr(defaults[di], {})
+        for k in a.kwonlyargs:
+            if k.arg in kwargs:
+                env[k.arg] = kwargs[k.arg]
+        try:
+            self.block(fn.node.body, env)
+        except _Return as r:
+            return r.v
+        return None
+
+    def tick(self):
+        self.steps += 1
+        if self.steps > self.MAX_STEPS:
+            raise NotConstant("constexpr step limit")
+
+    def block(self, stmts, env):
+        for st in stmts:
+            self.stmt(st, env)
+
+    def stmt(self, st, env):
+        self.tick()
+        if isinstance(st, ast.Expr):
+            if isinstance(st.value, ast.Constant):
+                return
+            if isinstance(st.value, ast.Call) and getattr(st.value.func, "id", getattr(st.value.func, "attr", "")) in (
+                    "precondition", "_assert", "postcondition"):
+                return
+            self.expr(st.value, env)
+        elif isinstance(st, ast.Assign):
+            v = self.expr(st.value, env)
+            for t in st.targets:
+                self.assign(t, v, env)
+        elif isinstance(st, ast.AugAssign):
+            cur = self.expr(st.target, env)
+            v = self.expr(ast.BinOp(left=ast.Constant(value=cur), op=st.op, right=st.value), env)
+            self.assign(st.target, v, env)
+        elif isinstance(st, ast.Return):
+            raise _Return(self.expr(st.value, env) if st.value is not None else None)
+        elif isinstance(st, ast.If):
+            self.block(st.body if self.expr(st.test, env) else st.orelse, env)
+        elif isinstance(st, ast.While):
+            while self.expr(st.test, env):
+                self.tick()
+                self.block(st.body, env)
+        elif isinstance(st, ast.For):
+            for x in self.expr(st.iter, env):
+                self.tick()
+                self.assign(st.target, x, env)
+                self.block(st.body, env)
+        elif isinstance(st, ast.Assert):
+            if not self.expr(st.test, env):
+                raise NotConstant("assertion fails in constexpr")
+        elif isinstance(st, ast.Pass):
+            return
+        else:
+            raise NotConstant("constexpr: unsupported statement %s" % type(st).__name__)
+
+    def assign(self, t, v, env):
+        if isinstance(t, ast.Name):
+            env[t.id] = v
+        elif isinstance(t, ast.Subscript):
+            self.expr(t.value, env)[self.expr(t.slice, env)] = v
+        elif isinstance(t, (ast.Tuple, ast.List)):
+            vs = list(v)
+            if len(vs) != len(t.elts):
+                raise NotConstant("unpack")
+            for tt, vv in zip(t.elts, vs):
+                self.assign(tt, vv, env)
+        else:
+            raise NotConstant("constexpr: unsupported target")
+
+    _BIN = {ast.Add: lambda a, b: a + b, ast.Sub: lambda a, b: a - b, ast.Mult: lambda a, b: a * b,
+            ast.FloorDiv: lambda a, b: a // b, ast.Mod: lambda a, b: a % b, ast.Pow: lambda a, b: a ** b,
+            ast.LShift: lambda a, b: a << b, ast.RShift: lambda a, b: a >> b, ast.BitOr: lambda a, b: a | b,
+            ast.BitAnd: lambda a, b: a & b, ast.BitXor: lambda a, b: a ^ b, ast.Div: lambda a, b: a / b}
+    _CMP = {ast.Eq: lambda a, b: a == b, ast.NotEq: lambda a, b: a != b, ast.Lt: lambda a, b: a < b,
+            ast.LtE: lambda a, b: a <= b, ast.Gt: lambda a, b: a > b, ast.GtE: lambda a, b: a >= b,
+            ast.In: lambda a, b: a in b, ast.NotIn: lambda a, b: a not in b, ast.Is: lambda a, b: a is b,
+            ast.IsNot: lambda a, b: a is not b}
+    _BUILTINS = {"len": len, "range": range, "bytes": bytes, "int": int, "str": str, "list": list, "dict": dict,
+                 "set": set, "tuple": tuple, "min": min, "max": max, "sorted": sorted, "enumerate": enumerate,
+                 "zip": zip, "abs": abs, "bool": bool, "chr": chr, "ord": ord, "reversed": reversed, "sum": sum,
+                 "True": True, "False": False, "None": None}
+    _METHODS = {"append", "extend", "join", "encode", "decode", "lower", "upper", "get", "keys", "values", "items",
+                "startswith", "endswith", "strip", "rstrip", "lstrip", "split", "replace", "format", "copy", "add",
+                "index", "find", "count", "isdigit"}
+
+    def expr(self, e, env):
+        self.tick()
+        try:
+            return self._expr(e, env)
+        except (NotConstant, _Return):
+            raise
+        except RecursionError:
+            raise NotConstant("constexpr recursion")
+        except Exception as ex:
+            raise NotConstant("constexpr: %s" % ex)
+
+    def _expr(self, e, env):
+        if isinstance(e, ast.Constant):
+            return e.value
+        if isinstance(e, ast.Name):
+            if e.id in env:
+                return env[e.id]
+            if e.id in self._BUILTINS:
+                return self._BUILTINS[e.id]
+            return self.folder.name(e.id, self.module, None)
+        if isinstance(e, ast.BinOp):
+            return self._BIN[type(e.op)](self.expr(e.left, env), self.expr(e.right, env))
+        if isinstance(e, ast.UnaryOp):
+            v = self.expr(e.operand, env)
+            return {ast.USub: lambda x: -x, ast.Not: lambda x: not x, ast.UAdd: lambda x: +x,
+                    ast.Invert: lambda x: ~x}[type(e.op)](v)
+        if isinstance(e, ast.BoolOp):
+            if isinstance(e.op, ast.And):
+                v = True
+                for x in e.values:
+                    v = self.expr(x, env)
+                    if not v:
+                        return v
+                return v
+            v = False
+            for x in e.values:
+                v = self.expr(x, env)
+                if v:
+                    return v
+            return v
+        if isinstance(e, ast.Compare):
+            l = self.expr(e.left, env)
+            for op, c in zip(e.ops, e.comparators):
+                r = self.expr(c, env)
+                if not self._CMP[type(op)](l, r):
+                    return False
+                l = r
+            return True
+        if isinstance(e, ast.IfExp):
+            return self.expr(e.body if self.expr(e.test, env) else e.orelse, env)
+        if isinstance(e, ast.Tuple):
+            return tuple(self.expr(x, env) for x in e.elts)
+        if isinstance(e, ast.List):
+            return [self.expr(x, env) for x in e.elts]
+        if isinstance(e, ast.Dict):
+            return {self.expr(k, env): self.expr(v, env) for k, v in zip(e.keys, e.values)}
+        if isinstance(e, ast.Subscript):
+            v = self.expr(e.value, env)
+            s = e.slice
+            if isinstance(s, ast.Slice):
+                return v[(self.expr(s.lower, env) if s.lower else None):(self.expr(s.upper, env) if s.upper else None):
+                         (self.expr(s.step, env) if s.step else None)]
+            return v[self.expr(s, env)]
+        if isinstance(e, ast.Call):
+            f = e.func
+            args = [self.expr(a, env) for a in e.args]
+            kwargs = {k.arg: self.expr(k.value, env) for k in e.keywords if k.arg}
+            if isinstance(f, ast.Name) and f.id not in env:
+                if f.id in self._BUILTINS:
+                    return self._BUILTINS[f.id](*args, **kwargs)
+                tgt = self.folder.idx.resolve_name(self.module, f.id)
+                if isinstance(tgt, FuncInfo):
+                    sub = ConstEval(self.folder, tgt.module)
+                    sub.steps = self.steps
+                    v = sub.call(tgt, args, kwargs)
+                    self.steps = sub.steps
+                    return v
+                raise NotConstant("constexpr: call of %s" % f.id)
+            if isinstance(f, ast.Attribute):
+                if f.attr in self._METHODS:
+                    recv = self.expr(f.value, env)
+                    if isinstance(recv, (bytes, str, list, dict, set, tuple)):
+                        return getattr(recv, f.attr)(*args, **kwargs)
+                tgt = self.folder.idx.resolve_expr(self.module, f)
+                if isinstance(tgt, FuncInfo):
+                    sub = ConstEval(self.folder, tgt.module)
+                    sub.steps = self.steps
+                    v = sub.call(tgt, args, kwargs)
+                    self.steps = sub.steps
+                    return v
+            raise NotConstant("constexpr: call %s" % ast.unparse(f))
+        if isinstance(e, ast.ListComp) and len(e.generators) == 1:
+            g = e.generators[0]
+            out = []
+            for x in self.expr(g.iter, env):
+                self.tick()
+                env2 = dict(env)
+                self.assign(g.target, x, env2)
+                if all(self.expr(c, env2) for c in g.ifs):
+                    out.append(self.expr(e.elt, env2))
+            return out
+        raise NotConstant("constexpr: unsupported expression %s" % type(e).__name__)
 
 
 # --------------------------------------------------------------------- regex
